@@ -1737,9 +1737,15 @@ class LeCreditBasedChannel(utils.EventEmitter):
         if self.connection_result is not None:
             self.connection_result.cancel()
             self.connection_result = None
+            for identifier, request in list(self.manager.le_coc_requests.items()):
+                if request.source_cid == self.source_cid:
+                    del self.manager.le_coc_requests[identifier]
         if self.disconnection_result is not None:
             self.disconnection_result.set_result(None)
             self.disconnection_result = None
+        self.out_queue.clear()
+        self.out_sdu = None
+        self.drained.set()
 
     def on_pdu(self, pdu: bytes) -> None:
         if self.sink is None:
